@@ -350,7 +350,7 @@ func main() {
 	debug.SetGCPercent(400)
 	r.DistinctSet = "outcomes"
 	r.Rule = "per sub-configuration (plain, prefix, prune, prefix+memTree, prefix+memTree+memVal, plain+memTree+memVal): BFS over all histories of {MemSet(parent,W), Set(parent,W), Commit(oldest|newest pending), Rollback(oldest|newest pending), Restart} with parent in {empty root, newest committed(, previous committed)}, W from ordered write lists over prefix-sharing keys (including lists that restore the parent's content), block height = number of updates from the empty root (two updates from one parent are a fork at equal height). state = (committed roots, pending roots+heights, raw database, global caches). After every operation: every committed root read in full against its content; MemSet/Rollback/Restart leave the raw database byte-identical; the store's pending set equals the model's. distinct = (operation, number of other pending/committed updates) situations observed"
-	r.Assume = []string{"sequential part only: requests are issued one at a time (the concurrent part of the property is a separate harness)", "values are non-empty; parents are committed roots", "restart on the in-memory backend = new Store object on the same database, node cache and package globals dropped", "pruning does not run (interval 10000)"}
+	r.Assume = []string{"concurrent part (conc.go): per configuration, MemSet+Commit / MemSet+Rollback-or-Commit / reads from three threads on the instrumented store under every schedule within the deviation bound", "values are non-empty; parents are committed roots", "restart on the in-memory backend = new Store object on the same database, node cache and package globals dropped", "pruning does not run (interval 10000)"}
 	cfgs := []mvx.Cfg{
 		{Name: "plain"},
 		{Name: "prefix", Prefix: true},
@@ -400,6 +400,7 @@ func main() {
 			continue
 		}
 		mk(c).seq(r).Explore()
+		concurrentPart(r, c)
 	}
 	r.Finish()
 }
